@@ -2,11 +2,16 @@
     serve the queue between start() and stop(), constructor arguments are validated / clamped.
     Statements only.  Same quantification as Props/C09.v.
 
-    Not proved here (see level_note): the growth clause ("a waiting task is started without
-    waiting for a running one while fewer than max_threads workers exist"); it is decided on the
-    implementation by the oracle (dependent, gate-blocked workloads must not stall) over the
-    explored schedules only. *)
-From JR Require Import Pool PoolBase PoolInvDefs PoolSafety PoolLifecycle.
+    The growth clause ("a waiting task is started without waiting for a running one while an idle
+    worker exists or fewer than max_threads workers exist") is proved in its safety form
+    (C10_growth, C10_growth_at_rest): in every reachable state of a running pool every unfinished
+    item has its own worker that will still take an item — up to the threads start() is still
+    committed to create and the one thread an enqueue() in flight is about to create — unless
+    max_threads workers exist.  That an idle worker blocked in Queue.get is woken by a put is the
+    queue's contract (trusted); that the scheduler eventually runs a runnable thread is fairness:
+    both are outside the model and are exercised on the implementation by the oracle
+    (dependent, gate-blocked workloads must not stall). *)
+From JR Require Import Pool PoolBase PoolInvDefs PoolInvE PoolInvG PoolInvH PoolSafety PoolLifecycle PoolGrowth.
 
 Theorem C10_ctor : forall mx mn,
   (pool_ctor mx mn = None <-> mx < 1) /\
@@ -31,3 +36,33 @@ Theorem C10_min_bound : forall mx mn progs sched,
   start_done s = true -> mn <= nb_threads s /\ nb_threads s = Z.of_nat (count serving (ws s) (next_w s)).
 Proof. exact min_bound. Qed.
 Print Assumptions C10_min_bound.
+
+(** growth, every instant of a running pool (outside the two lines of start() between reading the
+    backlog and using it): items not finished <= workers that will still take one + threads the
+    controller is still committed to create, or max_threads is reached; one less while an
+    enqueue() is between its put() and its thread start *)
+Theorem C10_growth : forall mx mn progs sched,
+  valid_cfg mx mn ->
+  let s := run sched (init mx mn progs) in
+  stopped s = false -> ctl s <> CSTQsize ->
+  let backlog := Z.of_nat (length (q s)) + Z.of_nat (count holding (ws s) (next_w s)) in
+  let takers := Z.of_nat (count serving (ws s) (next_w s)) - Z.of_nat (count retiring (ws s) (next_w s)) in
+  ((forall c, ewin (cpc (cs s c)) = false) ->
+     backlog <= takers + need 0 (ctl s) \/ mx <= nb_threads s + need 0 (ctl s)) /\
+  (forall c, ewin (cpc (cs s c)) = true ->
+     backlog - 1 <= takers + need 0 (ctl s) \/ mx <= nb_threads s + need 0 (ctl s)).
+Proof. exact growth_general. Qed.
+Print Assumptions C10_growth.
+
+(** growth at rest (start() has returned, stop() not called, no enqueue() in flight): every queued
+    item has its own idle worker, or max_threads workers exist *)
+Theorem C10_growth_at_rest : forall mx mn progs sched,
+  valid_cfg mx mn ->
+  let s := run sched (init mx mn progs) in
+  start_done s = true -> (forall c, ewin (cpc (cs s c)) = false) ->
+  let idle := Z.of_nat (count serving (ws s) (next_w s)) - Z.of_nat (count retiring (ws s) (next_w s))
+              - Z.of_nat (count holding (ws s) (next_w s)) in
+  (Z.of_nat (length (q s)) <= idle \/ nb_threads s = mx) /\
+  (q s <> [] -> 1 <= nb_threads s).
+Proof. exact growth_at_rest. Qed.
+Print Assumptions C10_growth_at_rest.
